@@ -85,15 +85,12 @@ Definition csv_row (g : graph) (tk : Z) (pk : poskey) (trk : Z) (is3d : bool) (n
 (* a DataFrame: column name -> column, in column order *)
 Definition table := dict (list cell).
 
-(* df = pd.DataFrame(rows); df = df[header]      (a key absent from a row is NaN;
-   with no rows there are no columns and df[header] raises KeyError: None) *)
-Definition dataframe (rows : list (dict cell)) (header : list Z) : option table :=
-  match rows with
-  | [] => None
-  | _ => Some (map (fun c => (c, map (fun r => getd c r None) rows)) header)
-  end.
+(* df = pd.DataFrame(rows, columns=header)      (a key absent from a row is NaN; with no rows
+   the columns are empty: a header-only file) *)
+Definition dataframe (rows : list (dict cell)) (header : list Z) : table :=
+  map (fun c => (c, map (fun r => getd c r None) rows)) header.
 
-Definition export_csv (g : graph) (tk : Z) (pk : poskey) (trk : Z) (is3d : bool) : option table :=
+Definition export_csv (g : graph) (tk : Z) (pk : poskey) (trk : Z) (is3d : bool) : table :=
   dataframe (map (csv_row g tk pk trk is3d) (g_nodes g)) (csv_header is3d).
 
 (* ====================== shared importer steps ====================== *)
